@@ -168,16 +168,7 @@ add(Contract(
 ))
 
 # ---------------------------------------------------------------------------------------------- text (the fallback rule)
-def _terminators():
-    """the terminator characters, read from the real source (so a change to the set changes the contract with it)"""
-    from vf import src as S
-
-    mi = S.load_module("markdown_it.rules_inline.text")
-    return sorted(S.set_literal_codes(mi, "_TerminatorChars"))
-
-
-def TERM(e):
-    return "(" + " or ".join(f"{e} == {chr(c)!r}" for c in _terminators()) + ")"
+TERM = IL.TERM
 
 
 add(Contract(RI + "text._terminator_char_regex", params={}, assume_only=True, ghost={"returns_charclass": "_TerminatorChars"},
@@ -187,7 +178,7 @@ add(Contract(
     ghost={"defs": {"P0": "old(state.pos)"}},
     # the regex search runs to the end of the source, not to posMax: the rule stays within posMax only because the callers
     # that lower posMax (link and image, to the label end) put it on a terminator character (']')
-    requires=POSR + [("posMax-on-a-terminator", "state.posMax == len(state.src) or " + TERM("state.src[state.posMax]"))],
+    requires=POSR + [IL.POSMAX_TERM],
     ensures=GENERIC + [
         ("stops-at-first-terminator", "implies(result, forall(k, P0, state.pos, not " + TERM("state.src[k]") + ") and (state.pos == state.posMax or " + TERM("state.src[state.pos]") + "))", ["C02", "C01"]),
         ("fails-only-on-a-terminator", "implies(not result, " + TERM("state.src[P0]") + ")", ["C01"]),
